@@ -218,11 +218,21 @@ def m2s_rules(ctx, fv):
               line_of(branchy[0]) if branchy else None)
 
 
+def _abstract_record(t):
+    """the record taken from the shared reader, however the reader is reached (Arc<Mutex>, borrowed Mutex, ...)"""
+    if not isinstance(t, tuple):
+        return t
+    if t and t[0] == "variant" and t[1] == "Some" and t[3][0] == "call" and t[3][1].endswith("Iterator::next"):
+        return ("taken_record",)
+    return tuple(_abstract_record(x) for x in t)
+
+
 def agree_rule(ctx, fs, fm):
     a = mgen_term(fs)
     b = mgen_term(fm)
     if len(a) == 1 and len(b) == 1:
-        ta, tb = alpha(lift_if(fs.term(a[0]["iter"]))), alpha(lift_if(fm.term(b[0]["iter"])))
+        ta = alpha(lift_if(_abstract_record(fs.term(a[0]["iter"]))))
+        tb = alpha(lift_if(_abstract_record(fm.term(b[0]["iter"]))))
         ctx.check("C10.G", "s2m_vs_m2s:iterator", ta == tb, "both outputs build the iterator as %s" % show(fs.term(a[0]["iter"])),
                   "seq_to_min builds `%s` but bin_sequences builds `%s`: the two outputs would not describe the same runs"
                   % (show(fs.term(a[0]["iter"])), show(fm.term(b[0]["iter"]))), line_of(b[0]))
